@@ -31,8 +31,8 @@ type params struct {
 }
 
 func init() {
-	report.Register("C06", report.Check{Level: "model_checking", QuickBudget: 150 * time.Second, ThoroughBudget: 40 * time.Minute, Run: runC06})
-	report.Register("C11", report.Check{Level: "model_checking", QuickBudget: 150 * time.Second, ThoroughBudget: 40 * time.Minute, Run: runC11})
+	report.Register("C06", report.Check{Level: "model_checking", QuickBudget: 240 * time.Second, ThoroughBudget: 25 * time.Minute, Run: runC06})
+	report.Register("C11", report.Check{Level: "model_checking", QuickBudget: 240 * time.Second, ThoroughBudget: 25 * time.Minute, Run: runC11})
 	explore.Register("pubsub.hist", func(p string) explore.Harness {
 		var pr params
 		json.Unmarshal([]byte(p), &pr)
